@@ -418,7 +418,8 @@ class _Inliner:
         if a.vararg or a.kwarg or a.posonlyargs:
             return False
         for d in fn.decorator_list:
-            if not (isinstance(d, ast.Name) and d.id in ('staticmethod', 'classmethod')):
+            if not ((isinstance(d, ast.Name) and d.id in ('staticmethod', 'classmethod', 'contextmanager'))
+                    or (isinstance(d, ast.Attribute) and d.attr == 'contextmanager')):
                 return False
         for n in ast.walk(fn):
             if n is not fn and isinstance(n, (ast.FunctionDef, ast.AsyncFunctionDef, ast.ClassDef, ast.Lambda)):
@@ -739,6 +740,57 @@ class _Inliner:
             return out
         return pre + (repl(body) or [ast.copy_location(ast.Pass(), st)])
 
+    def _inline_with(self, st: ast.With, caller_cls, caller_self) -> Optional[List[ast.stmt]]:
+        """`with h(args) as v: BODY`, h a @contextmanager generator: BODY takes the place of each `yield e` (v bound to e); what
+        the helper does around the yield (opening a file in its own `with`, try/finally) stays around BODY"""
+        if len(st.items) != 1 or not isinstance(st.items[0].context_expr, ast.Call):
+            return None
+        it = st.items[0]
+        g, recv = self._callee(it.context_expr, caller_cls, caller_self)
+        if g is None or not any((isinstance(d, ast.Name) and d.id == 'contextmanager') or (isinstance(d, ast.Attribute) and d.attr == 'contextmanager')
+                                for d in g.decorator_list):
+            return None
+        if any(isinstance(n, (ast.YieldFrom, ast.Return)) for n in ast.walk(g)) or not any(isinstance(n, ast.Yield) for n in ast.walk(g)):
+            return None
+        if it.optional_vars is not None and not isinstance(it.optional_vars, ast.Name):
+            return None
+        try:
+            pre, body = self._instantiate(g, it.context_expr, recv)
+        except NotInlinable:
+            return None
+        ok = [True]
+
+        def repl(stmts):
+            out = []
+            for s_ in stmts:
+                if isinstance(s_, ast.Expr) and isinstance(s_.value, ast.Yield):
+                    yv = s_.value.value or ast.Constant(None)
+                    if it.optional_vars is not None:
+                        if _simple_arg(yv):
+                            out += [_Rename({it.optional_vars.id: yv}, {}).visit(copy.deepcopy(b)) for b in st.body]
+                        else:
+                            out.append(ast.copy_location(ast.Assign([copy.deepcopy(it.optional_vars)], yv, lineno=s_.lineno), s_))
+                            out += copy.deepcopy(st.body)
+                    else:
+                        out += copy.deepcopy(st.body)
+                    continue
+                if any(isinstance(n, ast.Yield) for n in ast.walk(s_)):
+                    if isinstance(s_, (ast.If, ast.With, ast.Try)):
+                        for fld in ('body', 'orelse', 'finalbody'):
+                            v = getattr(s_, fld, None)
+                            if isinstance(v, list):
+                                setattr(s_, fld, repl(v))
+                        for h in getattr(s_, 'handlers', []) or []:
+                            h.body = repl(h.body)
+                    else:
+                        ok[0] = False       # a yield inside a loop or an expression: not a plain context manager
+                out.append(s_)
+            return out
+        new = repl(body)
+        if not ok[0]:
+            return None
+        return pre + new
+
     def _inline_for(self, st: ast.For, caller_cls, caller_self) -> Optional[List[ast.stmt]]:
         if not isinstance(st.iter, ast.Call) or st.orelse:
             return None
@@ -837,6 +889,8 @@ class _Inliner:
                 rep = self._hoist(st, caller_cls, caller_self)
             if rep is None and isinstance(st, ast.For):
                 rep = self._inline_for(st, caller_cls, caller_self)
+            if rep is None and isinstance(st, ast.With):
+                rep = self._inline_with(st, caller_cls, caller_self)
             if rep is not None:
                 self.changed = True
                 out += rep
@@ -1016,6 +1070,112 @@ def restore_cross_module(trees: Dict[str, ast.Module]) -> Dict[str, List[str]]:
             ast.fix_missing_locations(tree)
             logs.setdefault(mod, []).append('%s: %s now lives in %s as %s (similarity %.2f) - analysed at its old place' % (mod, q, m2, name, best_r))
     return logs
+
+
+def _strip_pos(n):
+    from .dtable import clone
+    c = clone(n)
+    for x in ast.walk(c) if isinstance(c, ast.AST) else []:
+        for a in ('lineno', 'col_offset', 'end_lineno', 'end_col_offset'):
+            if hasattr(x, a):
+                try:
+                    delattr(x, a)
+                except AttributeError:
+                    pass
+    return c
+
+
+def _canon_block(stmts: List[ast.stmt]) -> str:
+    """position-free, normalised text of a statement sequence (docstrings and logging dropped)"""
+    from .normalize import _Norm
+    fn = ast.FunctionDef('_f', ast.arguments([], [], None, [], [], None, []), [copy.deepcopy(s_) for s_ in stmts if not _is_doc_or_log(s_)] or [ast.Pass()],
+                         [], None, lineno=1, col_offset=0)
+    mod = ast.Module([fn], [])
+    ast.fix_missing_locations(mod)
+    for _ in range(2):
+        mod = _Norm().visit(mod)
+    ast.fix_missing_locations(mod)
+    return '\n'.join(ast.unparse(x) for x in mod.body[0].body)
+
+
+def restore_inlined(tree: ast.Module, modname: str) -> List[str]:
+    """step O (extract-method forwards, to undo an inlining): a listed private function that is gone without a trace was perhaps
+    inlined into its caller.  For every statement of the frozen callers that called it, the statement's own inlined expansion
+    (frozen callee body, computed with the inliner above) is looked for in today's caller; where it is found verbatim (after
+    normalisation) it is folded back into the call, and the frozen function is put back."""
+    known = known_functions().get(modname)
+    log: List[str] = []
+    if not known or 'sources' not in known:
+        return log
+    scopes = _scopes(tree)
+    have = {q for q, _, _, _ in scopes} | set(ALIASES.get(id(tree), {}))
+    for q in known['functions']:
+        if q in have or q.count('.') != 1:
+            continue
+        cls_name, name = q.split('.')
+        if not (name.startswith('_') and not (name.startswith('__') and name.endswith('__'))):
+            continue
+        cls_node = next((c for c in tree.body if isinstance(c, ast.ClassDef) and c.name == cls_name), None)
+        if cls_node is None:
+            continue
+        try:
+            callee = ast.parse(known['sources'][q]).body[0]
+        except (SyntaxError, KeyError):
+            continue
+        names = set(_mangled(cls_name, name))
+        restored = False
+        for cq in known['functions']:
+            if not cq.startswith(cls_name + '.') or cq == q or cq.count('.') != 1:
+                continue
+            caller_today = next((f2 for q2, f2, _, _ in scopes if q2 == cq), None)
+            if caller_today is None:
+                continue
+            try:
+                caller_frozen = ast.parse(known['sources'][cq]).body[0]
+            except (SyntaxError, KeyError):
+                continue
+            sites = [st for st in ast.walk(caller_frozen) if isinstance(st, (ast.Assign, ast.Expr, ast.Return, ast.AnnAssign))
+                     and isinstance(getattr(st, 'value', None), ast.Call) and isinstance(st.value.func, ast.Attribute)
+                     and st.value.func.attr in names]
+            for site in sites:
+                # expansion of the frozen call statement with the frozen callee
+                synth_caller = ast.FunctionDef(caller_frozen.name, copy.deepcopy(caller_frozen.args), [copy.deepcopy(site)], [], None, lineno=1, col_offset=0)
+                synth = ast.Module([ast.ClassDef(cls_name, [], [], [copy.deepcopy(callee), synth_caller], [])], [])
+                ast.fix_missing_locations(synth)
+                inl = _Inliner.__new__(_Inliner)
+                inl.tree, inl.modname, inl.counter, inl.log = synth, modname, 0, []
+                inl.known, inl.scopes = set(), _scopes(synth)
+                inl.helpers = {(cls_name, name): synth.body[0].body[0]}
+                inl.nested, inl.cur_q, inl.cur_fn = {}, '', synth_caller
+                selfn = synth_caller.args.args[0].arg if synth_caller.args.args else None
+                rep = inl._inline_stmt(synth_caller.body[0], cls_name, selfn)
+                if not rep:
+                    continue
+                want = _canon_block(rep)
+
+                def search(block):
+                    for i in range(len(block)):
+                        for j in range(i + 1, min(len(block), i + len(rep) + 2) + 1):
+                            if _canon_block(block[i:j]) == want:
+                                block[i:j] = [copy.deepcopy(site)]
+                                return True
+                    for st in block:
+                        for fld in ('body', 'orelse', 'finalbody'):
+                            v = getattr(st, fld, None)
+                            if isinstance(v, list) and v and isinstance(v[0], ast.stmt) and not isinstance(st, (ast.FunctionDef, ast.ClassDef)):
+                                if search(v):
+                                    return True
+                        for h in getattr(st, 'handlers', []) or []:
+                            if search(h.body):
+                                return True
+                    return False
+                if search(caller_today.body):
+                    restored = True
+        if restored:
+            cls_node.body.append(copy.deepcopy(callee))
+            ast.fix_missing_locations(tree)
+            log.append('%s: %s was inlined into its caller - folded back into a call of the frozen function' % (modname, q))
+    return log
 
 
 def canonical_decomposition(tree: ast.Module, modname: str, baseline_bodies: Optional[Dict[str, str]] = None,
